@@ -91,8 +91,9 @@ class NormalizingExperimenter(experimenter.Experimenter):
         continue
       normalized_metrics: Dict[str, vz.Metric] = {}
       for name, metric in suggestion.final_measurement.metrics.items():
-        norm_val = metric.value - self._norm_means[name]
-        norm_val /= self._norm_stds[name]
+        # A metric without any finite normalization sample is left as it is.
+        norm_val = metric.value - self._norm_means.get(name, 0.0)
+        norm_val /= self._norm_stds.get(name, 1.0)
         normalized_metrics[name] = vz.Metric(norm_val)
       suggestion.final_measurement.metrics = normalized_metrics
 
